@@ -73,8 +73,8 @@ func Run(r *ev.Run, tier, self, harnessDir, scratch string) (states, transitions
 		return 0, 0, fmt.Errorf("maporder tool not built (run setup.sh): %v", e)
 	}
 	ovDir := filepath.Join(scratch, "overlay")
-	cmd := exec.Command(mo, "/repo", ovDir, "./x/...", "./adapter/...", "./app", "./ibc", "./types", "./syscontracts/...")
-	cmd.Dir = "/repo"
+	cmd := exec.Command(mo, ev.Repo(), ovDir, "./x/...", "./adapter/...", "./app", "./ibc", "./types", "./syscontracts/...")
+	cmd.Dir = ev.Repo()
 	if out, e := cmd.CombinedOutput(); e != nil {
 		return 0, 0, fmt.Errorf("maporder: %v: %s", e, out)
 	} else {
@@ -95,7 +95,11 @@ func Run(r *ev.Run, tier, self, harnessDir, scratch string) (states, transitions
 	r.Count("map_ranges_controlled", int64(len(sites.Rewritten)))
 	r.Count("map_ranges_not_controlled", int64(len(sites.NotControlled)))
 	inst := filepath.Join(scratch, "verifchk-inst")
-	b := exec.Command("go", "build", "-tags", "verif", "-overlay", filepath.Join(ovDir, "overlay.json"), "-o", inst, "./cmd/verifchk")
+	args := []string{"build"}
+	if mf := os.Getenv("VERIF_MODFLAG"); mf != "" {
+		args = append(args, mf)
+	}
+	b := exec.Command("go", append(args, "-tags", "verif", "-overlay", filepath.Join(ovDir, "overlay.json"), "-o", inst, "./cmd/verifchk")...)
 	b.Dir = harnessDir
 	if out, e := b.CombinedOutput(); e != nil {
 		return 0, 0, fmt.Errorf("instrumented build: %v: %s", e, out)
